@@ -171,7 +171,10 @@ func (p *MemTablePool) GetMemTables() []*MemTable {
 
 	result := make([]*MemTable, 0, len(p.immutables)+1)
 	result = append(result, p.active)
-	result = append(result, p.immutables...)
+	// Newest first: callers merge these in order and let earlier tables win
+	for i := len(p.immutables) - 1; i >= 0; i-- {
+		result = append(result, p.immutables[i])
+	}
 	return result
 }
 
